@@ -1,5 +1,75 @@
 // harness commands owned by the check of property C17 (see tools/props/C17.py)
-#[allow(unused_variables)]
+//
+// c17 <opts> <main src> <name>=<src>...
+//   like `mods`, but module "main" also has host natives that fail with every ErrorKind:
+//     raise_AttributeError() raise_CompileError() raise_ImportError() raise_IndexError() raise_NameError()
+//     raise_RuntimeError() raise_TypeError() raise_ValueError()   -> Err(Error::with_message(kind, "boom"))
+//     raise_multi()   -> Err(Error::with_messages(TypeError, ["boom", "bam"]))  (two messages: context "boom\nbam")
+//     raise_ok()      -> Ok(nil)
+//   Records: O/R/M as for `run`.
+use yarel::error::{Error, ErrorKind};
+use yarel::value::Value;
+use yarel::vm::{self, Vm};
+
+macro_rules! raiser {
+    ($name:ident, $kind:ident) => {
+        fn $name(_vm: &mut Vm, _n: usize) -> Result<Value, Error> {
+            Err(Error::with_message(ErrorKind::$kind, "boom"))
+        }
+    };
+}
+raiser!(raise_attribute, AttributeError);
+raiser!(raise_compile, CompileError);
+raiser!(raise_import, ImportError);
+raiser!(raise_index, IndexError);
+raiser!(raise_name, NameError);
+raiser!(raise_runtime, RuntimeError);
+raiser!(raise_type, TypeError);
+raiser!(raise_value, ValueError);
+
+fn raise_multi(_vm: &mut Vm, _n: usize) -> Result<Value, Error> {
+    Err(Error::with_messages(ErrorKind::TypeError, &["boom", "bam"]))
+}
+
+fn raise_ok(_vm: &mut Vm, _n: usize) -> Result<Value, Error> {
+    Ok(Value::None)
+}
+
+fn cmd_c17(args: &[&str], out: &mut Vec<String>) {
+    let o = crate::parse_opts(args[0]);
+    crate::MODULES.with(|m| {
+        let mut m = m.borrow_mut();
+        m.clear();
+        for a in &args[2..] {
+            let mut it = a.splitn(2, '=');
+            let name = crate::unhex_str(it.next().unwrap());
+            let src = crate::unhex_str(it.next().unwrap_or(""));
+            m.insert(name, src);
+        }
+    });
+    let mut vm = crate::new_vm();
+    crate::setup(&o);
+    vm.define_native("main", "raise_AttributeError", raise_attribute);
+    vm.define_native("main", "raise_CompileError", raise_compile);
+    vm.define_native("main", "raise_ImportError", raise_import);
+    vm.define_native("main", "raise_IndexError", raise_index);
+    vm.define_native("main", "raise_NameError", raise_name);
+    vm.define_native("main", "raise_RuntimeError", raise_runtime);
+    vm.define_native("main", "raise_TypeError", raise_type);
+    vm.define_native("main", "raise_ValueError", raise_value);
+    vm.define_native("main", "raise_multi", raise_multi);
+    vm.define_native("main", "raise_ok", raise_ok);
+    let r = vm::interpret(&mut vm, crate::unhex_str(args[1]), None);
+    crate::emit_result(out, &r);
+    crate::LOADS.with(|l| l.borrow_mut().clear());
+}
+
 pub fn dispatch(cmd: &str, args: &[&str], out: &mut Vec<String>) -> bool {
-    false
+    match cmd {
+        "c17" => {
+            cmd_c17(args, out);
+            true
+        }
+        _ => false,
+    }
 }
